@@ -563,3 +563,19 @@ Proof.
     now apply encode_norm.
 Qed.
 Print Assumptions reencode_exact.
+
+(* canonicalisation preserves the meaning: the re-encoding of whatever was accepted decodes, with everything consumed,
+   to a value equal to the one first decoded (and, by encode_norm, re-encoding again changes nothing) *)
+Theorem reencode_meaning e k n sid bs v :
+  wf_schema k e -> defaults_typed e -> arrs_ok e -> (S k <= 64)%nat ->
+  tfin n e (TStruct sid) = true -> (tneed n e (TStruct sid) + k <= 64)%nat ->
+  bytes_ok bs -> lenok bs -> decode e sid bs = DOk v [] ->
+  exists v', decode e sid (encode e sid v) = DOk v' [] /\ veq e (TStruct sid) v' v /\ encode e sid v' = encode e sid v.
+Proof.
+  intros Hwf Hdt Harr Hk Hfin Hn Hbs Hl E.
+  destruct (decode_typed e k Hwf Hdt Harr n sid _ bs v [] Hk Hfin Hn Hbs Hl E) as [Hv _].
+  inversion Hv as [? ? Hsc| | | | |? vs Hvs]; subst; [discriminate|].
+  exists (norm_struct e sid (VStruct vs)). split; [now apply (roundtrip_struct_static e k n)|].
+  split; [now apply norm_veq|now apply encode_norm].
+Qed.
+Print Assumptions reencode_meaning.
